@@ -452,6 +452,9 @@ def stream_supported(ctx, cuqi, thorough):
             if c0["obj"] is not None:
                 shape, rate = float(c0["obj"][0][0]), float(c0["obj"][1][0])
             same = close(shape, m_shape, SHAPE_TOL) and close(rate, m_rate, SHAPE_TOL)
+            if same:
+                tm = ctx.extra_cov.setdefault("tie_params_max_fraction_of_tolerance", {"rate": 0.0})
+                tm["rate"] = max(tm["rate"], abs(rate - float(m_rate)) / (SHAPE_TOL * (1.0 + max(abs(rate), abs(float(m_rate))))))
             if not same:
                 ctx.disagree(tie_key + ":params", desc, [str(m_shape), str(m_rate)], [shape, rate], "Gamma(shape, rate) drawn from differs from the model")
             steady = all(close(float(c["shape"][0]), shape, 1e-15) and close(1.0 / float(c["scale"][0]), rate, 1e-13) for c in calls)
@@ -525,6 +528,11 @@ def check_exactness(ctx, tie_key, known_base, desc, spec, post, calls, model, fo
     bad_rate = abs(B) > btol
     bad_form = fit["resid"] > RES_TOL * fit["mag"]
     if not (bad_shape or bad_rate or bad_form):
+        # margins of the passing cases: largest observed deviation as a fraction of its tolerance (flakiness monitor)
+        mg = ctx.extra_cov.setdefault("oracle_margins_max_fraction_of_tolerance", {"A": 0.0, "B": 0.0, "resid": 0.0})
+        mg["A"] = max(mg["A"], abs(A) / a_tol(fit))
+        mg["B"] = max(mg["B"], abs(B) / btol if btol > 0 else 0.0)
+        mg["resid"] = max(mg["resid"], fit["resid"] / (RES_TOL * fit["mag"]))
         return
     demanded = "target.logd(s) - log gammapdf(s; shape, rate) constant in s"
     got = {"shape": shape, "rate": rate, "A(log s coeff)": A, "B(-s coeff)": B, "resid": fit["resid"], "grid": fit["grid"], "g-g0": fit["g"]}
